@@ -173,7 +173,16 @@ func c19History(init []byte, hist []V) V {
 			if AsInt(a[1]) == 1 {
 				w = tr
 			}
-			n, err := w.Write(AsBytes(a[2]))
+			// the caller reuses its slice (and the spare capacity behind it) right after the write:
+			// what was written must have been copied into the buffer
+			data := AsBytes(a[2])
+			own := make([]byte, len(data), len(data)+16)
+			copy(own, data)
+			n, err := w.Write(own)
+			own = own[:cap(own)]
+			for i := range own {
+				own[i] ^= 0xA5
+			}
 			res = []V{I(n), errNil(err)}
 		case 1:
 			var r io.Reader = buf
@@ -296,6 +305,19 @@ func init() {
 				}
 			}
 			rec(nil, 0)
+			// ---- 1b. large writes (>= 4096, around power-of-two sizes) into empty and non-empty buffers
+			//          through either handle, read back through the other ----
+			for _, sz := range []int{4095, 4096, 4097, 8192, 10000} {
+				for _, h := range []int{0, 1} {
+					for _, pre := range []string{"", "ab"} {
+						d := make([]byte, sz)
+						g.R.Read(d)
+						g.Add("hist-large-write", Ls(I(0), Str(pre), Ls(
+							Ls(I(0), I(h), Bs(d)), Ls(I(3), I(1-h)), Ls(I(1), I(1-h), I(sz+8)), Ls(I(3), I(h)),
+							Ls(I(0), I(1-h), Bs(d[:7])), Ls(I(1), I(h), I(64)))))
+					}
+				}
+			}
 			// ---- 2. random histories ----
 			n := g.Scale(1500, 60000)
 			for c := 0; c < n; c++ {
